@@ -745,3 +745,38 @@ def rule_no_import_time_container_mutated(cm, rep, rid):
     if not n:
         rep.ok(rid, 'import-time containers', '%d container(s) created at import time, none of them reaches an in-place change (%d change sites followed)' % (
             len(fl.module_sites), len(fl.mutated)), None)
+
+
+# ---------------------------------------------------------------------------------------------
+# engine state lives on the engine
+
+
+def rule_state_on_engine_only(em, rep, rid):
+    rep.rule(rid, 'methods of the engine write attributes of the engine itself only: nothing is stored on an object that was handed in '
+                  '(an atom, a term, a fact) or found in a table - such objects can be shared by several engines, or by several '
+                  'running queries, and what one of them stores there the others see')
+    n = 0
+    bad = 0
+    for f in em.YP.methods.values():
+        fresh = {t.id for s in own_nodes(f.node) if isinstance(s, ast.Assign) and isinstance(s.value, ast.Call) and
+                 em.cg.constructed_class(f, s.value) is not None for t in s.targets if isinstance(t, ast.Name)}
+        for x in own_nodes_ordered(f.node):
+            base = None
+            what = None
+            if isinstance(x, ast.Attribute) and isinstance(x.ctx, (ast.Store, ast.Del)):
+                base, what = x.value, x
+            elif isinstance(x, ast.Subscript) and isinstance(x.ctx, (ast.Store, ast.Del)) and isinstance(x.value, ast.Attribute):
+                base, what = x.value.value, x
+            elif isinstance(x, ast.Call) and isinstance(x.func, ast.Attribute) and x.func.attr in MUTATORS and isinstance(x.func.value, ast.Attribute):
+                base, what = x.func.value.value, x
+            if base is None:
+                continue
+            n += 1
+            if isinstance(base, ast.Name) and base.id not in ('self',) and base.id not in fresh:
+                bad += 1
+                rep.violation(rid, '%s:%s' % (f.qname, norm(what)[:50]), '%s stores into %s, an object that is not the engine and was not created here: '
+                              'if that object is known to another engine (atoms and terms travel between engines) or to another running '
+                              'query, the two now share state' % (f.name, norm(base)), f.loc(x))
+    if not bad:
+        rep.ok(rid, em.YP.qname, '%d attribute/element stores in the engine class, all on self or on objects created on the spot' % n, em.YP.loc())
+    rep.minimum('stores in the engine class', n, 5)
